@@ -182,6 +182,8 @@ func main() {
 		c12(*seed, *n, *replay)
 	case "c09":
 		c09(*seed, *n, *replay)
+	case "c17":
+		c17(*seed, *n, *replay)
 	default:
 		fmt.Fprintln(os.Stderr, "usage: recvharness [-seed N] [-n N] [-replay file] c12|c09|c10|c13|c17|c20")
 		os.Exit(2)
